@@ -530,7 +530,7 @@ func (e *escaper) escapeTree(c context, node parse.Node, name string, line int) 
 func (e *escaper) computeOutCtx(c context, t *template.Template) context {
 	// Propagate context over the body.
 	c1, ok := e.escapeTemplateBody(c, c, t)
-	if !ok {
+	if !ok && c1.state != stateError {
 		// Look for a fixed point by assuming c1 as the output context.
 		if c2, ok2 := e.escapeTemplateBody(c, c1, t); ok2 {
 			c1, ok = c2, true
